@@ -443,8 +443,9 @@ def satisfaction(ctx):
     one, inner = level3_parts()
     for c in ("P2WSH", "tapscript"):
         inner_ok = _well_typed(c, inner)
-        # quick: every depth-3 nesting with the inner combinator unwrapped; thorough: under every outer wrapper as well
-        cand = list(itertools.chain(level1(), level2(), level2b(), level3(inner_ok, one, ctx.pick(("",), ("", "v", "s", "a", "j", "n", "d", "t", "l", "u")))))
+        # quick: every depth-3 nesting with the inner combinator unwrapped; thorough: also under the v:, s:, a: and j: wrappers, on both arms
+        # (all ten outer wrappers are in the static sweep; the dynamic one over all of them is ~1e5 more expressions per context)
+        cand = list(itertools.chain(level1(), level2(), level2b(), level3(inner_ok, one, ctx.pick(("",), ("", "v", "s", "a", "j")))))
         # the parser and is_sane decide, in parallel
         sane = []
         with_notes = [_sane_collect(ctx, c, cand)]
